@@ -53,3 +53,6 @@ PLAN["C07"] = dict(quick=["time7"], thorough=["time7"])
 
 SUITES["time8"] = dict(mc="MC_Seq")
 PLAN["C08"] = dict(quick=["time8"], thorough=["time8"])
+
+SUITES["time9"] = dict(mc="MC_Seq")
+PLAN["C09"] = dict(quick=["time9"], thorough=["time9"])
